@@ -514,3 +514,64 @@ func IsParam(v ssa.Value, i int) bool {
 	ps := pv.Parent().Params
 	return i < len(ps) && ps[i] == pv
 }
+
+// SliceLitElems returns the elements of a slice built from a composite literal ([]T{a,b,c}): the value must be
+// a Slice of a fresh array Alloc whose elements are stored through constant IndexAddr. nil if not of that shape.
+func (p *Prog) SliceLitElems(v ssa.Value) []ssa.Value {
+	sl, ok := Strip(v).(*ssa.Slice)
+	if !ok {
+		return nil
+	}
+	al, ok := sl.X.(*ssa.Alloc)
+	if !ok || al.Referrers() == nil {
+		return nil
+	}
+	elems := map[int64]ssa.Value{}
+	for _, r := range *al.Referrers() {
+		ia, ok := r.(*ssa.IndexAddr)
+		if !ok {
+			continue
+		}
+		k, ok := ia.Index.(*ssa.Const)
+		if !ok || ia.Referrers() == nil {
+			return nil
+		}
+		for _, rr := range *ia.Referrers() {
+			if st, ok := rr.(*ssa.Store); ok && st.Addr == ssa.Value(ia) {
+				elems[k.Int64()] = st.Val
+			}
+		}
+	}
+	out := make([]ssa.Value, len(elems))
+	for i := range out {
+		e, ok := elems[int64(i)]
+		if !ok {
+			return nil
+		}
+		out[i] = e
+	}
+	return out
+}
+
+// ConvOf returns the operand of a conversion (Convert / ChangeType), or v itself.
+func ConvOf(v ssa.Value) ssa.Value {
+	for {
+		switch x := v.(type) {
+		case *ssa.Convert:
+			v = x.X
+		case *ssa.ChangeType:
+			v = x.X
+		default:
+			return v
+		}
+	}
+}
+
+// StrConstOf returns the string value of a (possibly converted) string constant.
+func StrConstOf(v ssa.Value) (string, bool) {
+	k, ok := ConvOf(v).(*ssa.Const)
+	if !ok || k.Value == nil || k.Value.Kind() != constant.String {
+		return "", false
+	}
+	return constant.StringVal(k.Value), true
+}
